@@ -128,6 +128,34 @@ func treeMutations(f *family, g *genuineMsg, r *prng.R, other *genuineMsg) []mut
 		rehdr("rcv.kidempty", func(h *MV) { h.Arr[5].Arr[k].Arr[0] = mvBinOf(nil) })
 		rehdr("rcv.boxflip", func(h *MV) { h.Arr[5].Arr[k].Arr[1].Data = flipBit(h.Arr[5].Arr[k].Arr[1].Data, r) })
 		rehdr("rcv.boxshort", func(h *MV) { h.Arr[5].Arr[k].Arr[1].Data = h.Arr[5].Arr[k].Arr[1].Data[:10] })
+		// payload key boxes of unusual shapes in EVERY entry (so the opener's own one too): a nonce glued in front
+		// of / behind the genuine box (what NaCl bindings returning nonce||box produce), and other lengths — C12:
+		// whatever the entry looks like, the long-term key may only ever be asked to open it under the fixed nonce
+		nonce := r.Bytes(24)
+		rehdr("rcv.box.noncepre", func(h *MV) {
+			for _, e := range h.Arr[5].Arr {
+				if len(e.Arr) >= 2 {
+					e.Arr[1].Data = append(append([]byte(nil), nonce...), e.Arr[1].Data...)
+				}
+			}
+		})
+		rehdr("rcv.box.noncepost", func(h *MV) {
+			for _, e := range h.Arr[5].Arr {
+				if len(e.Arr) >= 2 {
+					e.Arr[1].Data = append(append([]byte(nil), e.Arr[1].Data...), nonce...)
+				}
+			}
+		})
+		for _, bl := range []int{24, 40, 47, 49, 56, 72, 80, 96} {
+			bl := bl
+			rehdr(fmt.Sprintf("rcv.box.len%d", bl), func(h *MV) {
+				for _, e := range h.Arr[5].Arr {
+					if len(e.Arr) >= 2 {
+						e.Arr[1].Data = r.Bytes(bl)
+					}
+				}
+			})
+		}
 		rehdr("rcv.extra", func(h *MV) { h.Arr[5].Arr[k].Arr = append(h.Arr[5].Arr[k].Arr, mvIntOf(1)) })
 		rehdr("rcv.many", func(h *MV) {
 			for i := 0; i < 20; i++ {
